@@ -195,7 +195,7 @@ def nontrivial(c, o):
 LEVEL_TEXT = ('Machine-checked Coq theorems on the parser model: for ANY list of syntactically valid messages (start line, header block, body framed by Content-Length or by any partition into '
 	'non-empty chunks with extensions, optionally with an announced trailer section) the concatenation of their octets is delivered as exactly those messages in order, each consuming exactly '
 	'its own octets, the machine idle afterwards (induction over the list); under EVERY fragmentation on the reference machine, on the machine as implemented for quiet runs, and without '
-	'any hypothesis about the run for BOTH machines as implemented when the start lines contain no LF (valid messages are framed, so neither shortcut can fire); isolation and truncation at every cut; the CONNECT-client '
-	'configuration. Tied to /repo by model-vs-implementation evaluation in Coq of pipelines produced by an independent RFC 7230 serializer, fed whole, per octet and cut at truncation points.')
+	'any hypothesis about the run for BOTH machines as implemented when the start lines contain no LF (valid messages are framed, so neither shortcut can fire); isolation and truncation at every cut, and for both machines as implemented: a stream cut anywhere inside a message delivers, under every fragmentation of the received prefix, exactly the messages wholly received and nothing early, and every fragmentation of the remainder delivers exactly the rest; the CONNECT-client '
+	'configuration. Tied to /repo by model-vs-implementation evaluation in Coq of pipelines produced by an independent RFC 7230 serializer, fed whole, per octet and cut at truncation points (payloads up to 16 kB, 64 kB in the thorough tier, with 2^k block sizes).')
 LEVEL_NOTE = 'Known findings (recorded, excluded by the hypotheses named in the theorems): D13 unframed request followed by more octets in the same call, D48 empty reason phrase, D50 304 with Content-Length, D57 payload on GET/HEAD/TRACE.'
 TECHNIQUE = 'Coq proof on the Gallina parser model + in-Coq correspondence on independently serialised pipelines + ground-truth oracle at every truncation point'
